@@ -258,6 +258,8 @@ func TestCheck(t *testing.T) {
 		return
 	}
 
+	largeFunctions(t, rec)
+
 	profs := profiles()
 	n := ev.N(3000, 40000)
 	ev.RapidCheck(t, "v1-decode-runs-same", n, 1, func(rt *rapid.T) {
@@ -401,6 +403,58 @@ func runReplays(t *testing.T, rec *ev.Rec) {
 			}
 		default:
 			rec.Class("replay-pass")
+		}
+	}
+}
+
+
+// largeFunctions: version-1 functions that still fit 2-byte positions but whose widened (version-2)
+// layout exceeds 65535 bytes, with jumps across that boundary that are taken: the relocation table must
+// hold positions wider than 16 bits. Sizes around the boundary, in the main function and in a function
+// constant, with plain jumps and with try statements.
+func largeFunctions(t *testing.T, rec *ev.Rec) {
+	stmt := map[string]string{
+		"if":  "if n < 0 { n += 100 }\n",
+		"try": "try { n += 1 } finally { n -= 1 }\n",
+		"and": "n = n >= 0 && n + 1\n",
+	}
+	counts := []int{3350}
+	if ev.Tier() == "thorough" {
+		counts = []int{2900, 3200, 3350, 3500}
+	}
+	if rec.Shard != 0 {
+		return // deterministic family: one shard runs it
+	}
+	for _, kind := range []string{"if", "try", "and"} {
+		for _, count := range counts {
+			for _, inFn := range []bool{false, true} {
+				body := strings.Repeat(stmt[kind], count)
+				src := "n := 7\n" + body + "return n\n"
+				if inFn {
+					src = "f := func(n) {\n" + body + "return n\n}\nreturn f(7)\n"
+				}
+				rec.Case()
+				r := judge(prog.Case{Src: src, Note: fmt.Sprintf("large function: %d x %s, in function %v", count, kind, inFn)}, nil, nil, true)
+				name := fmt.Sprintf("large-v1-function:%s:%d:fn=%v", kind, count, inFn)
+				switch {
+				case r.harness != "":
+					// too large for the version-1 layout or for the compiler: not expressible, counted
+					rec.Exclude("large-function-not-expressible-in-v1")
+				case r.excl != "":
+					rec.Exclude(r.excl)
+				case r.inconcl != "":
+					rec.Inconcl(r.inconcl)
+				case r.sig != "":
+					r.c.Src = fmt.Sprintf("(%d repetitions of %q, in function: %v)", count, stmt[kind], inFn)
+					if !rec.Violation(r.sig+":large-function", name+": "+r.what[:min(len(r.what), 600)], r.c) {
+						t.Errorf("%s: %s", name, r.what[:min(len(r.what), 600)])
+					}
+				default:
+					rec.Class(name)
+					rec.Class("large-v1-function")
+					rec.NonTriv(name)
+				}
+			}
 		}
 	}
 }
